@@ -13,6 +13,7 @@ import random
 import numpy as np
 
 from harness import alpha, compare, core, gamma, gamma_chk, shims, tlc, util
+from harness import spell
 
 INV = ["ConvertRefines", "NoSharedWrites", "PoolOK", "Emit"]
 # species in an order that is neither alphabetical nor reverse alphabetical (their order is the checkpoint's component order)
@@ -100,10 +101,11 @@ def run_scenario(chk, sc, cfgseed, species_src, flavour="sched", workers=None):
         n = len(set(sc["levels"][l]["state"]["file"]))
         plan[l + 1] = sc["sched"][pos:pos + n]
         pos += n
+    ctyped = spell.of(cdir, cfgseed)[0]           # the checkpoint as a user may type it (PathRes.tla)
     with shims.fs_audit() as audit:
         try:
             with shims.pool_shim(shims.Scheduler(plan=plan, workers=workers), flavour), core.quiet():
-                chk2plt(cdir, gradp=g["gradp"], species_reactions=g["reactions"], floor_massfracs=g["floor"],
+                chk2plt(ctyped, gradp=g["gradp"], species_reactions=g["reactions"], floor_massfracs=g["floor"],
                         pltdir=out, **kw)
             exc = None
         except Exception as e:
